@@ -97,6 +97,8 @@ def extract_function(cname, ptext, body, cxx_name):
                 if len(args) > 1:
                     # (buffer, length): the documented conversion of a Fortran character argument passes the TRIMMED length L<name>
                     locals_[m.group(1)] = ("StringFromLen" if args[1].strip() == "L" + args[0] else "StringFromWrongLen", args[0])
+                    if args[1].strip() == "L" + args[0]:
+                        row.setdefault("lens", []).append(args[0])
                 else:
                     locals_[m.group(1)] = ("StringFrom", args[0])
             else:
@@ -112,6 +114,17 @@ def extract_function(cname, ptext, body, cxx_name):
             row["call"] = ("method" if m.group(3) else ("new" if m.group(4) else "plain"))
             if m.group(1) or m.group(2):
                 row["result"] = row["result"] or ("Local:" + (m.group(1) or m.group(2)))
+            continue
+        # a std::string result copied into the caller's fixed-length buffer: blank fill when empty, else copy (both branches required)
+        m = re.match(r"^if \((\w+)\.empty\(\)\) \{ ShroudStrCopy\((\w+), \w+, (?:nullptr|NULL), 0\)$", st)
+        if m and m.group(1) in ("SHCXX_rv", "SHC_rv"):
+            row["empty_fill"] = m.group(2)
+            continue
+        m = re.match(r"^\} else \{ ShroudStrCopy\((\w+), \w+, (\w+)\.data\(\), \2\.size\(\)\)$", st)
+        if m and m.group(2) in ("SHCXX_rv", "SHC_rv") and row.get("empty_fill") == m.group(1):
+            row["result"] = (row["result"] + "|" if row["result"] else "") + "ResultGlue"
+            continue
+        if st == "}" and row.get("empty_fill"):
             continue
         m = re.match(r"^strcpy\((\w+), (\w+)\.c_str\(\)\)$", st) or re.match(r"^ShroudStrCopy\((\w+), \w+, (\w+)\.data\(\), \2\.size\(\)\)$", st)
         if m:
@@ -198,7 +211,7 @@ def emit_coq(rows, path):
     items = []
     for r in rows:
         if r.get("missing"):
-            items.append('{| w_name := %s; w_kind := "missing"; w_call := ""; w_this := ""; w_params := []; w_args := []; w_copyouts := []; w_unknown := 99; w_rkind := {| k_group := "?"; k_ptrs := ""; k_intent := "" |}; w_result := RUnknown; w_buf := false; w_this_const := false; w_fconst := false |}'
+            items.append('{| w_name := %s; w_kind := "missing"; w_call := ""; w_this := ""; w_params := []; w_args := []; w_copyouts := []; w_unknown := 99; w_rkind := {| k_group := "?"; k_ptrs := ""; k_intent := "" |}; w_result := RUnknown; w_buf := false; w_this_const := false; w_fconst := false; w_cparams := []; w_lens := [] |}'
                          % coq_s(r.get("lib", "") + ":" + (r.get("cname") or "?")))
             continue
         try:
@@ -212,13 +225,14 @@ def emit_coq(rows, path):
             unk = len(r["unknown"]) + (1 if r["args"] is None else 0)
             rg, rp, ri = ((r.get("result_kind") or "?||").split("|") + ["", "", ""])[:3]
             items.append("{| w_name := %s; w_kind := %s; w_call := %s; w_this := %s; w_params := [%s]; w_args := [%s]; w_copyouts := [%s]; w_unknown := %d; "
-                         "w_rkind := {| k_group := %s; k_ptrs := %s; k_intent := %s |}; w_result := %s; w_buf := %s; w_this_const := %s; w_fconst := %s |}" % (
+                         "w_rkind := {| k_group := %s; k_ptrs := %s; k_intent := %s |}; w_result := %s; w_buf := %s; w_this_const := %s; w_fconst := %s; w_cparams := [%s]; w_lens := [%s] |}" % (
                 coq_s(r.get("lib", "") + ":" + r["cname"]), coq_s(r["kind"]), coq_s(r["call"]), coq_s(r["this"]), "; ".join(ps), "; ".join(args),
                 "; ".join(coq_s(c) for c, _ in r["copyouts"]), unk, coq_s(rg), coq_s(rp), coq_s(ri), result_conv(r),
                 "true" if r.get("generated") == "arg_to_buffer" else "false",
-                "true" if r.get("this_const") else "false", "true" if r.get("func_const") else "false"))
+                "true" if r.get("this_const") else "false", "true" if r.get("func_const") else "false",
+                "; ".join(coq_s(c) for c in r.get("cparams", [])), "; ".join(coq_s(c) for c in r.get("lens", []))))
         except Exception:
-            items.append('{| w_name := "unwritable"; w_kind := "?"; w_call := ""; w_this := ""; w_params := []; w_args := []; w_copyouts := []; w_unknown := 99; w_rkind := {| k_group := "?"; k_ptrs := ""; k_intent := "" |}; w_result := RUnknown; w_buf := false; w_this_const := false; w_fconst := false |}')
+            items.append('{| w_name := "unwritable"; w_kind := "?"; w_call := ""; w_this := ""; w_params := []; w_args := []; w_copyouts := []; w_unknown := 99; w_rkind := {| k_group := "?"; k_ptrs := ""; k_intent := "" |}; w_result := RUnknown; w_buf := false; w_this_const := false; w_fconst := false; w_cparams := []; w_lens := [] |}')
     with open(path, "w") as f:
         f.write("(* generated on this run: argument flow of every plain C wrapper found in the generated sources *)\n")
         f.write("From Coq Require Import List String.\nFrom Shroud Require Import Model.CallEq.\nImport ListNotations.\nOpen Scope string_scope.\n")
